@@ -28,4 +28,11 @@ PROPS = {
         note="Address source injected through Prefix.Addrs (rtnetlink flag decoding in addresser_linux.go is outside the check); lists longer than K+1 and addresses outside the pool's classes are not covered.",
         parts=[part("enum", "internal/plugin", "TestVerifC13")],
     ),
+    "C15": dict(
+        level="exploration", engine="enum",
+        technique="bounded-exhaustive enumeration (all subsets<=K x all permutations x duplicates of a route pool) of the real Route.Apply against a set-comprehension reference model",
+        text="Every loopback-route list of up to K(+1 duplicate) entries from a 12-route pool (nested prefixes sharing and not sharing a base address, /128, ::/0, IPv4), in every order, goes through the real wildcard Route plugin; the options are compared with a reference computed from the statement. Complete inside the bound.",
+        note="Route source injected through Route.Routes (rtnetlink dump not covered); lists longer than K+1 not covered.",
+        parts=[part("enum", "internal/plugin", "TestVerifC15")],
+    ),
 }
